@@ -15,6 +15,7 @@ mod hist;
 mod keys;
 mod model;
 mod net;
+mod osrand;
 mod panics;
 mod parties;
 mod replica;
